@@ -156,10 +156,98 @@ def llgo_binary():
     return out
 
 
-def llgo_env(config="O0", rundir=None):
-    """private cache per (tree hash, config); private TMPDIR per run"""
-    cache = os.path.join(tree_dir(), "cache-" + config)
-    os.makedirs(cache, exist_ok=True)
+WARMUP_SRC = """package main
+
+import (
+	"bufio"
+	"errors"
+	"fmt"
+	"os"
+	"reflect"
+	"sort"
+	"strconv"
+	"strings"
+	"sync"
+	"sync/atomic"
+)
+
+type t struct{ A int }
+
+func (t) String() string { return "t" }
+
+func main() {
+	var n int32
+	var wg sync.WaitGroup
+	wg.Add(1)
+	go func() { atomic.AddInt32(&n, 1); wg.Done() }()
+	wg.Wait()
+	w := bufio.NewWriter(os.Stdout)
+	s := []int{3, 1, 2}
+	sort.Ints(s)
+	fmt.Fprintln(w, "warm", n, s, strings.ToUpper("ok"), strconv.Itoa(42), reflect.TypeOf(t{}).String(), errors.New("e"), fmt.Sprint(t{1}))
+	w.Flush()
+}
+"""
+WARMUP_OUT = "warm 1 [1 2 3] OK 42 main.t e t\n"
+
+
+def _owner():
+    return re.sub(r"[^A-Za-z0-9]", "", os.environ.get("VERIF_OWNER", "adhoc")) or "adhoc"
+
+
+def golden_cache(config, opt, tags):
+    """A cache pre-filled with the runtime and common std packages, built by ONE llgo process (no concurrent writers)
+    and smoke-tested; every check copies it into a cache of its own, so nothing one check (or one build mode) leaves in
+    a cache can ever be served to another."""
+    import fcntl
+    g = os.path.join(tree_dir(), "golden-" + config)
+    if os.path.exists(os.path.join(g, ".ok")):
+        return g
+    with open(g + ".lock", "w") as lf:
+        fcntl.flock(lf, fcntl.LOCK_EX)
+        if os.path.exists(os.path.join(g, ".ok")):
+            return g
+        shutil.rmtree(g, ignore_errors=True)
+        os.makedirs(g)
+        wd = os.path.join(tree_dir(), "warmup-" + config)
+        shutil.rmtree(wd, ignore_errors=True)
+        write_module(wd, {"main.go": WARMUP_SRC}, modname="warmup")
+        env = base_env({"XDG_CACHE_HOME": g, "TMPDIR": os.path.join(wd, "tmp")})
+        os.makedirs(env["TMPDIR"], exist_ok=True)
+        if opt != "O0":
+            env["LLGO_VERIF_PASSES"] = O2STAR
+        cmd = [llgo_binary(), "build", "-" + opt, "-o", os.path.join(wd, "warm.exe")] + (["-tags", tags] if tags else []) + ["."]
+        t0 = time.time()
+        r = subprocess.run(cmd, cwd=wd, env=env, capture_output=True, text=True, timeout=1800)
+        if r.returncode != 0:
+            shutil.rmtree(g, ignore_errors=True)
+            raise Undecided("cannot build the warm-up program with llgo (%s):\n%s" % (config, (r.stdout + r.stderr)[-3000:]))
+        st, so, se = run_exe(os.path.join(wd, "warm.exe"), timeout=60, merge=True)
+        if st != 0 or so != WARMUP_OUT:
+            shutil.rmtree(g, ignore_errors=True)
+            raise Undecided("the warm-up program built by llgo misbehaves (%s): status %s output %r" % (config, st, so[-300:]))
+        shutil.rmtree(wd, ignore_errors=True)
+        open(os.path.join(g, ".ok"), "w").close()
+        log("golden cache %s built in %.0fs" % (config, time.time() - t0))
+    return g
+
+
+def llgo_env(config="O0", rundir=None, opt=None, tags=None):
+    """private llgo cache per (tree hash, owner check, config), seeded from the golden cache; private TMPDIR per run"""
+    opt = opt or ("O0" if config.startswith("O0") else config.split("-")[0])
+    tags = tags if tags is not None else ("nogc" if "nogc" in config else "")
+    cache = os.path.join(tree_dir(), "cache-%s-%s" % (_owner(), config))
+    if not os.path.isdir(cache):
+        import fcntl
+        with open(cache + ".lock", "w") as lf:
+            fcntl.flock(lf, fcntl.LOCK_EX)
+            if not os.path.isdir(cache):
+                g = golden_cache(config, opt, tags) if re.fullmatch(r"O\d(-nogc)?", config) else None
+                if g:
+                    shutil.copytree(g, cache + ".tmp", dirs_exist_ok=True)
+                    os.rename(cache + ".tmp", cache)
+                else:
+                    os.makedirs(cache, exist_ok=True)
     env = base_env({"XDG_CACHE_HOME": cache})
     if rundir:
         t = os.path.join(rundir, "tmp")
@@ -177,7 +265,7 @@ def llgo_build(moddir, out, opt="O0", tags="", rundir=None, timeout=900, pkg="."
     """returns (ok, output)"""
     exe = llgo_binary()
     cfg = config or (opt + ("-" + tags.replace(",", "_") if tags else ""))
-    env = llgo_env(cfg, rundir)
+    env = llgo_env(cfg, rundir, opt=opt, tags=tags)
     if opt != "O0":
         env["LLGO_VERIF_PASSES"] = O2STAR
     if extra_env:
@@ -450,6 +538,7 @@ class Known:
 class Check:
     def __init__(self, pid, tier, level="model_checking"):
         self.pid = pid
+        os.environ.setdefault("VERIF_OWNER", pid)
         self.tier = tier
         self.level = level
         self.t0 = time.time()
